@@ -64,6 +64,7 @@ fn sync_states(cfg: &Cfg) {
     setup(pool);
     let (st, n) = (cfg.get("st"), cfg.opt("n", 1));
     let w = World::new();
+    w.prelude(cfg);
     let q = mkobj(&w, cfg);
     let g = Gate::new();
     let bg = BGate::new();
@@ -101,6 +102,22 @@ fn sync_states(cfg: &Cfg) {
             w.desync(&b, "B", Body::with(move || { w1.sync(&q1, "Y", Body::plain()); }));
             others.push(b);
         }
+        9 => {
+            // idle again after a future operation whose (stale) waker fires while the sync callers run
+            w.future_desync(&q, "FD", Body::gated(&g)).detach();
+            rt::quiesce();
+            if pool == 0 {
+                // no pool thread: the operation is run by a thread inside sync (its waker is a thread waker)
+                let g2 = g.clone();
+                let e = spawn(move || g2.open());
+                w.sync(&q, "DRAIN", Body::plain());
+                join(e, "opener");
+            }
+            g.open();
+            rt::quiesce();
+            let g1 = g.clone();
+            hs.push(spawn(move || g1.fire_stale()));
+        }
         _ => panic!("bad st"),
     }
     for i in 0..n {
@@ -135,6 +152,7 @@ fn wake_ctx(cfg: &Cfg) {
     setup(pool);
     let (kind, ctx, wake) = (cfg.get("kind"), cfg.get("ctx"), cfg.opt("wake", 0));
     let w = World::new();
+    w.prelude(cfg);
     let q = mkobj(&w, cfg);
     let g = if wake == 2 { Gate::new_keep_stale() } else { Gate::new() };
     let mut hs = vec![];
@@ -195,6 +213,7 @@ fn fd_result(cfg: &Cfg) {
     setup(pool);
     let (mode, gated, k, after) = (cfg.get("mode"), cfg.opt("gated", 1) == 1, cfg.opt("k", 1) as usize, cfg.opt("after", 0) == 1);
     let w = World::new();
+    w.prelude(cfg);
     let q = mkobj(&w, cfg);
     let g = Gate::new();
     let body = if gated { Body::gated(&g) } else { Body::plain() };
@@ -282,6 +301,7 @@ fn fd_two(cfg: &Cfg) {
     setup(pool);
     let order = cfg.get("order");
     let w = World::new();
+    w.prelude(cfg);
     let q = mkobj(&w, cfg);
     let g = Gate::new();
     let h1 = w.future_desync(&q, "FD1", Body::gated(&g));
@@ -318,6 +338,7 @@ fn fs_cancel(cfg: &Cfg) {
     setup(pool);
     let mode = cfg.get("mode");
     let w = World::new();
+    w.prelude(cfg);
     let q = mkobj(&w, cfg);
     let g_ahead = Gate::new();
     let g = Gate::new();
@@ -379,6 +400,7 @@ fn fs_nested(cfg: &Cfg) {
     setup(pool);
     let shape = cfg.get("shape");
     let w = World::new();
+    w.prelude(cfg);
     let a = w.raw();
     let b = w.raw();
     let (w1, a1, b1) = (w.clone(), a.clone(), b.clone());
@@ -441,6 +463,7 @@ fn try_paths(cfg: &Cfg) {
     setup(pool);
     let path = cfg.get("path");
     let w = World::new();
+    w.prelude(cfg);
     let q = mkobj(&w, cfg);
     let g = Gate::new();
     let mut hs = vec![];
@@ -470,6 +493,23 @@ fn try_paths(cfg: &Cfg) {
         4 => {
             w.future_desync(&q, "FD", Body::gated(&g)).detach();
             w.desync(&q, "M", Body::plain());
+        }
+        6 => {
+            // an earlier future operation has come and gone; the waker it was polled with fires again (stale) at an
+            // arbitrary moment, e.g. inside the closure of a successful try_sync
+            w.future_desync(&q, "FD", Body::gated(&g)).detach();
+            rt::quiesce();
+            if pool == 0 {
+                // no pool thread: the operation is run by a thread inside sync (its waker is a thread waker)
+                let g2 = g.clone();
+                let e = spawn(move || g2.open());
+                w.sync(&q, "DRAIN", Body::plain());
+                join(e, "opener");
+            }
+            g.open();
+            rt::quiesce();
+            let g1 = g.clone();
+            hs.push(spawn(move || g1.fire_stale()));
         }
         _ => {
             let (w1, q1, g1) = (w.clone(), q.clone(), g.clone());
@@ -507,6 +547,7 @@ fn indep(cfg: &Cfg) {
     setup(pool);
     let (k, mode, syncer) = (cfg.get("k") as usize, cfg.opt("mode", 0), cfg.opt("syncer", 1) == 1);
     let w = World::new();
+    w.prelude(cfg);
     let mut blocked = vec![];
     let mut bgs = vec![];
     let mut gs = vec![];
@@ -570,6 +611,7 @@ fn drop_obj(cfg: &Cfg) {
     setup(pool);
     let (state, dropper) = (cfg.get("state"), cfg.opt("dropper", 0));
     let w = World::new();
+    w.prelude(cfg);
     let o = w.desync_obj();
     let st = o.st().clone();
     let g = Gate::new();
@@ -593,7 +635,8 @@ fn drop_obj(cfg: &Cfg) {
             w.desync(&o, "D", Body::plain());
         }
     }
-    let before: Vec<usize> = (0..w.rec.all().len()).collect();
+    let oid = o.id();
+    let before: Vec<usize> = w.rec.all().iter().enumerate().filter(|(_, r)| r.obj == oid).map(|(i, _)| i).collect();
     let rec = w.rec.clone();
     let drops = w.payload_drops.clone();
     let check_after_drop = move |rec: &Rec| {
@@ -672,6 +715,7 @@ fn suspend(cfg: &Cfg) {
     setup(pool);
     let (resume_mode, with_sync, stale) = (cfg.opt("resume", 0), cfg.opt("sync", 1) == 1, cfg.opt("stale", 0) == 1);
     let w = World::new();
+    w.prelude(cfg);
     let o = w.raw();
     let q = match &o { Obj::Raw(q, _) => q.clone(), _ => unreachable!() };
     let g0 = Gate::new();
@@ -778,6 +822,7 @@ fn panic_contain(cfg: &Cfg) {
     let ctx = cfg.get("ctx");
     let self_wake = cfg.opt("selfwake", 0) == 1;
     let w = World::new();
+    w.prelude(cfg);
     let bad = w.raw();
     let good = w.raw();
     let qbad = match &bad { Obj::Raw(q, _) => q.clone(), _ => unreachable!() };
@@ -897,6 +942,7 @@ fn pool_census(cfg: &Cfg) {
     setup(pool);
     let (n, phases) = (cfg.opt("n", 2) as usize, cfg.opt("phases", 0));
     let w = World::new();
+    w.prelude(cfg);
     let mut objs = vec![];
     let mut hs = vec![];
     for i in 0..n {
@@ -1007,6 +1053,7 @@ fn excl_susp(cfg: &Cfg) {
     setup(pool);
     let kind = cfg.opt("kind", 0);
     let w = World::new();
+    w.prelude(cfg);
     let q = mkobj(&w, cfg);
     let g = Gate::new();
     let mut hs = vec![];
@@ -1049,6 +1096,7 @@ fn order_ctx(cfg: &Cfg) {
     setup(pool);
     let (a, b, pre) = (cfg.get("a"), cfg.get("b"), cfg.opt("pre", 0));
     let w = World::new();
+    w.prelude(cfg);
     let q = mkobj(&w, cfg);
     let g = Gate::new();
     let open_gate = Gate::new();
@@ -1101,6 +1149,7 @@ fn stale_entry(cfg: &Cfg) {
     setup(pool);
     let how = cfg.opt("how", 0);
     let w = World::new();
+    w.prelude(cfg);
     let mut pins = vec![];
     for i in 0..pool {
         let bq = w.raw();
@@ -1149,6 +1198,7 @@ fn excl_drop(cfg: &Cfg) {
     setup(pool);
     let (k, other) = (cfg.opt("k", 1) as usize, cfg.opt("other", 0));
     let w = World::new();
+    w.prelude(cfg);
     let q = mkobj(&w, cfg);
     let g = Gate::new();
     let mut hs = vec![];
@@ -1199,6 +1249,7 @@ fn indep_stale(cfg: &Cfg) {
     setup(pool);
     let how = cfg.opt("how", 0);
     let w = World::new();
+    w.prelude(cfg);
     let x = w.raw();
     let xg = BGate::new();
     w.desync(&x, "X-blocked", Body::blocking(&xg));
@@ -1250,6 +1301,7 @@ fn wake_stale_entry(cfg: &Cfg) {
     setup(pool);
     let kind = cfg.opt("kind", 0);
     let w = World::new();
+    w.prelude(cfg);
     let c = w.raw();
     let g = Gate::new();
     if kind == 0 {
@@ -1293,6 +1345,7 @@ fn indep_race(cfg: &Cfg) {
     setup(pool);
     let n = cfg.opt("n", 2) as usize;
     let w = World::new();
+    w.prelude(cfg);
     let mut objs = vec![];
     let mut bgs = vec![];
     let mut hs = vec![];
